@@ -379,7 +379,8 @@ Inductive evk : Type :=
 | EGen | ECall | EDropOut | EDropIn       (* user events *)
 | EArrive (w : nat) | ELeave (w : nat)    (* ev::BARRIER_ARRIVE / BARRIER_LEAVE around the w-th wait *)
 | EClear | ESnap | EStart | EEnd          (* TALLY_CLEAR, TALLY_SNAPSHOT, CLOCK_START, CLOCK_END *)
-| EPanic                                  (* injected panic (logged by the harness in place of the user event) *).
+| EPanic                                  (* injected panic (logged by the harness in place of the user event) *)
+| EGArrive | EGLeave                      (* BARRIER_ARRIVE / BARRIER_LEAVE with a = 3: a wait of the guard while unwinding (hook H5) *).
 
 Definition act_ev (a : act) (e : evk) : bool :=
   match a, e with
@@ -389,12 +390,12 @@ Definition act_ev (a : act) (e : evk) : bool :=
   | _, _ => false
   end.
 
-(** Steps without an event in the log: the guard's waits of a panicked thread,
-    the return from record_sample, join and start of the next round. *)
+(** Steps without an event in the log: the end of the guard's drop (no wait
+    left) of a panicked thread, the return from record_sample, join and start
+    of the next round.  Every barrier wait, the guard's included, is logged. *)
 Definition tau_thread (c : config) (st : state) (th : thread) : bool :=
   match md th, blk th with
-  | Unwind, None => true
-  | Unwind, Some g => negb (g =? bgen (bar st))
+  | Unwind, None => remaining th =? 0
   | Run, None => plen (ssize c (round st)) (shp c) <=? pc th
   | _, _ => false
   end.
@@ -417,7 +418,7 @@ Fixpoint taus (fuel : nat) (c : config) (st : state) : state :=
            end
   end.
 
-(** One logged event of thread t. *)
+(** One logged event of thread t that is a step of the model. *)
 Definition obs_step (c : config) (st : state) (t : nat) (e : evk) : option state :=
   match gp st, nth_error (ths st) t with
   | GRun, Some th =>
@@ -428,37 +429,69 @@ Definition obs_step (c : config) (st : state) (t : nat) (e : evk) : option state
       | Some (AWait w') => if w =? w' then step c st (LThread t) else None
       | _ => None
       end
-    | Run, None, ELeave w =>
-      (* the releasing arrival does not block in the model: its wait is already over *)
-      match pc th with
-      | S q => match nth_error p q with Some (AWait w') => if w =? w' then Some st else None | _ => None end
-      | 0 => None
-      end
     | Run, None, EPanic =>
       match nth_error p (pc th) with
       | Some a => if faultable a && fault c t (round st) (pc th) then step c st (LThread t) else None
       | None => None
       end
+    | Run, None, (ELeave _ | EGArrive | EGLeave) => None
     | Run, None, _ =>
       match nth_error p (pc th) with
       | Some a => if act_ev a e && negb (faultable a && fault c t (round st) (pc th)) then step c st (LThread t) else None
       | None => None
       end
+    | Unwind, None, EGArrive => if remaining th =? 0 then None else step c st (LThread t)
+    | Unwind, Some _, EGLeave => step c st (LThread t)
     | _, _, _ => None
     end
   | _, _ => None
   end.
 
-(** Replays a global log; returns the number of accepted events and the state
-    reached (after the silent steps that are enabled). *)
-Fixpoint replay (fuel : nat) (c : config) (st : state) (log : list (nat * evk)) (acc : nat) : nat * state :=
-  match log with
-  | [] => (acc, st)
-  | (t, e) :: rest =>
-    match obs_step c st t e with
-    | Some st' => replay fuel c (taus fuel c st') rest (S acc)
-    | None => (acc, st)
+Definition is_arrive (e : evk) : bool := match e with EArrive _ | EGArrive => true | _ => false end.
+Definition is_leave (e : evk) : bool := match e with ELeave _ | EGLeave => true | _ => false end.
+Definition blocked_now (st : state) (t : nat) : bool :=
+  match nth_error (ths st) t with Some th => match blk th with Some _ => true | None => false end | None => false end.
+
+(** The releasing arrival does not block in the model: its wait is over with
+    the arrival, and the leave event the thread logs next has no step of its
+    own.  [pend] lists the threads that owe exactly that event; [pend_ok]
+    checks that it is the leave of the wait just passed. *)
+Definition pend_ok (c : config) (st : state) (t : nat) (e : evk) : bool :=
+  match nth_error (ths st) t with
+  | Some th =>
+    match e, md th with
+    | ELeave w, Run =>
+      match pc th with
+      | S q => match nth_error (tprog c (round st) t) q with Some (AWait w') => w =? w' | _ => false end
+      | 0 => false
+      end
+    | EGLeave, (Unwind | Unwound) => true
+    | _, _ => false
     end
+  | None => false
+  end.
+
+Fixpoint remove_nat (t : nat) (l : list nat) : list nat :=
+  match l with [] => [] | h :: r => if h =? t then r else h :: remove_nat t r end.
+
+(** Replays a global log, every event matched one to one; returns the number
+    of accepted events, the state reached (after the silent steps that are
+    enabled) and the threads still owing a leave event. *)
+Fixpoint replay (fuel : nat) (c : config) (st : state) (pend : list nat) (log : list (nat * evk)) (acc : nat)
+  : nat * state * list nat :=
+  match log with
+  | [] => (acc, st, pend)
+  | (t, e) :: rest =>
+    if existsb (Nat.eqb t) pend then
+      if is_leave e && pend_ok c st t e then replay fuel c st (remove_nat t pend) rest (S acc)
+      else (acc, st, pend)
+    else
+      match obs_step c st t e with
+      | Some st' =>
+        let pend' := if is_arrive e && negb (blocked_now st' t) then t :: pend else pend in
+        replay fuel c (taus fuel c st') pend' rest (S acc)
+      | None => (acc, st, pend)
+      end
   end.
 
 (** * C08 phase order as a boolean specification on an observed global log
@@ -517,31 +550,46 @@ Definition ev_of_act (a : act) : evk :=
   | ADrop _ true => EDropOut | ADrop _ false => EDropIn
   end.
 
-Definition step_event (c : config) (st : state) (l : label) : option (nat * evk) :=
+(** [gev]: whether the guard's waits while unwinding are part of the log (they
+    are since hook H5; the monitor ignores them either way). *)
+Definition step_event_g (gev : bool) (c : config) (st : state) (l : label) : option (nat * evk) :=
   match l, gp st with
   | LThread i, GRun =>
     match nth_error (ths st) i with
     | Some th =>
-      match md th, blk th, nth_error (tprog c (round st) i) (pc th) with
-      | Run, Some _, Some (AWait w) => Some (i, ELeave w)
-      | Run, None, Some a =>
-        if faultable a && fault c i (round st) (pc th) then Some (i, EPanic) else Some (i, ev_of_act a)
-      | _, _, _ => None
+      match md th, blk th with
+      | Run, Some _ =>
+        match nth_error (tprog c (round st) i) (pc th) with
+        | Some (AWait w) => Some (i, ELeave w)
+        | _ => None
+        end
+      | Run, None =>
+        match nth_error (tprog c (round st) i) (pc th) with
+        | Some a => if faultable a && fault c i (round st) (pc th) then Some (i, EPanic) else Some (i, ev_of_act a)
+        | None => None
+        end
+      | Unwind, Some _ => if gev then Some (i, EGLeave) else None
+      | Unwind, None => if gev && negb (remaining th =? 0) then Some (i, EGArrive) else None
+      | _, _ => None
       end
     | None => None
     end
   | _, _ => None
   end.
 
-Fixpoint events (c : config) (st : state) (tr : list label) : list (nat * evk) :=
+Fixpoint events_g (gev : bool) (c : config) (st : state) (tr : list label) : list (nat * evk) :=
   match tr with
   | [] => []
   | l :: t =>
     match step c st l with
-    | Some st' => match step_event c st l with
-                  | Some e => e :: events c st' t
-                  | None => events c st' t
+    | Some st' => match step_event_g gev c st l with
+                  | Some e => e :: events_g gev c st' t
+                  | None => events_g gev c st' t
                   end
     | None => []
     end
   end.
+
+(** The log of the steps of record_sample proper, and the full log. *)
+Definition events := events_g false.
+Definition events_full := events_g true.
